@@ -61,6 +61,8 @@ def prepare(rng, scratch, ntasks, kinds=None, want=None):
 
 def analyse_text(text, scratch, embed=None):
     path = write_jugfile(scratch, text)
+    core.CURRENT_INPUT.clear()
+    core.CURRENT_INPUT.update({'kind': 'jugfile', 'text': text, 'doing': 'cache-free sequential run of the generated jugfile with the real Task.run / value()'})
     del lib.CALLS[:]
     lib.FAULTS.clear()
     from jug.backends.dict_store import dict_store
